@@ -4,6 +4,8 @@ import (
 	"encoding/json"
 	"flag"
 	"fmt"
+	"go/types"
+	"golang.org/x/tools/go/ssa"
 	"os"
 	"path/filepath"
 	"regexp"
@@ -118,6 +120,8 @@ func main() {
 		os.Exit(cmdCheck(os.Args[2:]))
 	case "ssa":
 		cmdSSA(os.Args[2:])
+	case "sweep":
+		os.Exit(cmdSweep(os.Args[2:]))
 	default:
 		fmt.Fprintln(os.Stderr, "unknown command")
 		os.Exit(2)
@@ -612,4 +616,104 @@ func cmdSSA(args []string) {
 			}
 		}
 	}
+}
+
+// cmdSweep: zero-annotation bounds / arithmetic safety sweep over every function of the given packages. The output is
+// a list of candidate panics (obligations that are not discharged without any precondition) for manual triage: it is
+// a search aid for genuine defects, not a check registered in the manifest.
+func cmdSweep(args []string) int {
+	fs := flag.NewFlagSet("sweep", flag.ExitOnError)
+	repo := fs.String("repo", "/repo", "repository")
+	verif := fs.String("verif", "/verif", "verif dir")
+	pkgsFlag := fs.String("pkgs", "", "comma separated package patterns (./x/...)")
+	timeout := fs.Int("timeout", 5, "per-obligation solver timeout (s)")
+	fs.Parse(args)
+	pats := strings.Split(*pkgsFlag, ",")
+	P, err := LoadProgram(*repo, pats, filepath.Join(*verif, "contracts"))
+	if err != nil {
+		fmt.Printf("sweep: load failed: %v\n", err)
+		return 2
+	}
+	outDir := filepath.Join(*verif, "out", "sweep")
+	os.RemoveAll(outDir)
+	os.MkdirAll(outDir, 0o755)
+	type cand struct {
+		o   *Obligation
+		rep *FuncReport
+	}
+	var fns []*ssa.Function
+	for _, pk := range P.SSA.AllPackages() {
+		if pk.Pkg == nil || !strings.HasPrefix(pk.Pkg.Path(), "github.com/agglayer/aggkit") {
+			continue
+		}
+		match := false
+		for _, pt := range pats {
+			pt = strings.TrimSuffix(strings.TrimPrefix(pt, "./"), "/...")
+			if strings.HasSuffix(pk.Pkg.Path(), "/"+pt) || strings.Contains(pk.Pkg.Path(), "/"+pt+"/") {
+				match = true
+			}
+		}
+		if !match || strings.Contains(pk.Pkg.Path(), "/mocks") {
+			continue
+		}
+		for _, m := range pk.Members {
+			if f, ok := m.(*ssa.Function); ok && f.Blocks != nil && f.Synthetic == "" {
+				fns = append(fns, f)
+			}
+			if t, ok := m.(*ssa.Type); ok {
+				for _, recv := range []types.Type{t.Type(), types.NewPointer(t.Type())} {
+					ms := P.SSA.MethodSets.MethodSet(recv)
+					for i := 0; i < ms.Len(); i++ {
+						if f := P.SSA.MethodValue(ms.At(i)); f != nil && f.Blocks != nil && f.Synthetic == "" && f.Pkg == pk {
+							dup := false
+							for _, g := range fns {
+								if g == f {
+									dup = true
+								}
+							}
+							if !dup {
+								fns = append(fns, f)
+							}
+						}
+					}
+				}
+			}
+		}
+	}
+	sort.Slice(fns, func(i, j int) bool { return fns[i].String() < fns[j].String() })
+	total, kept, errs := 0, 0, 0
+	for _, fn := range fns {
+		if P.Fset != nil && strings.HasSuffix(P.Fset.Position(fn.Pos()).Filename, "_test.go") {
+			continue
+		}
+		c := &FuncContract{PkgPath: fn.Pkg.Pkg.Path(), Key: fn.RelString(fn.Pkg.Pkg), Loops: map[int]*LoopSpec{}, Asserts: map[string][]*Clause{}}
+		for _, m := range []string{"heap"} {
+			e, _ := parseSpecExpr(m)
+			c.Modifies = append(c.Modifies, &Clause{Text: m, Expr: e})
+		}
+		c.HasMod = true
+		rep := SweepFunc(P, fn, c)
+		if rep.Error != "" {
+			errs++
+			fmt.Printf("skip   %s: %s\n", rep.Func, rep.Error)
+			continue
+		}
+		for _, o := range rep.Obligations {
+			if !strings.HasPrefix(o.Kind, "nopanic.") {
+				continue
+			}
+			total++
+			f := oblFile(outDir, o.Name)
+			writeFile(f, rep.ex.Render(o))
+			r := Solve(f, *timeout, false, false)
+			if r.Status == "unsat" {
+				os.Remove(f)
+				continue
+			}
+			kept++
+			fmt.Printf("CAND   %-8s %s %s  (%s)\n", r.Status, o.Pos, o.Detail, o.Name)
+		}
+	}
+	fmt.Printf("sweep: %d functions, %d safety conditions, %d not discharged without preconditions, %d functions outside the subset\n", len(fns), total, kept, errs)
+	return 0
 }
